@@ -209,6 +209,13 @@ func (f *termFactory) cmp(op string, a, b *term) *term {
 	if a == b {
 		return f.boolc(op == "bvule" || op == "bvsle")
 	}
+	// zero-extended value against a constant that exceeds its range
+	if a.op == "zext" && b.isConst() && (op == "bvult" || op == "bvule") && b.c > mask(a.args[0].w) {
+		return f.boolc(true)
+	}
+	if b.op == "zext" && a.isConst() && (op == "bvult" || op == "bvule") && a.c > mask(b.args[0].w) {
+		return f.boolc(false)
+	}
 	// narrow zero-extended comparisons against constants
 	if a.op == "zext" && b.isConst() && b.c&^mask(a.args[0].w) == 0 && (op == "bvult" || op == "bvule" || sext64(b.c, b.w) >= 0) {
 		nop := op
